@@ -227,6 +227,23 @@ func checkC13(cx *Ctx, r *Report) {
 	} else {
 		r.checkSources("R-VFG", "slo:LogoutResponseType.Issuer.Text", "", li, entityIDSources, []string{"ext:iface:context.Context.Value#0"}, false)
 	}
+	// what is decoded is the received message, with the received (or defaulted) encoding - not the other way round
+	for _, a := range []struct {
+		key   string
+		idx   int
+		allow []string
+		req   []string
+	}{
+		{"DecodeLogoutRequest:encoding", 0, []string{`ext:(url.Values).Get("SAMLEncoding")#0`, "const:urn:oasis:names:tc:SAML:2.0:bindings:URL-Encoding:DEFLATE", "const:"}, []string{`ext:(url.Values).Get("SAMLEncoding")#0`}},
+		{"DecodeLogoutRequest:message", 1, []string{`ext:(url.Values).Get("SAMLRequest")#0`}, []string{`ext:(url.Values).Get("SAMLRequest")#0`}},
+	} {
+		la, sa := vf.CallArgSources(matchDecoder(w, "samlp.LogoutRequestType"), a.idx)
+		if len(sa) == 0 {
+			r.Fail("R-VFG", "slo:"+a.key, "", "the logout request decoder is not called from the logout handler")
+			continue
+		}
+		r.checkSources("R-VFG", "slo:"+a.key, w.InstrPos(sa[0]), la, a.allow, a.req, true)
+	}
 	ls, sites := vf.CallArgSources(matchStorage("GetEntityByID"), 1)
 	if len(sites) > 0 {
 		r.checkSources("R-VFG", "slo:GetEntityByID:entityID", w.InstrPos(sites[0]), ls, []string{"decoded:samlp.LogoutRequestType.Issuer.Text"}, []string{"decoded:samlp.LogoutRequestType.Issuer.Text"}, true)
@@ -239,9 +256,9 @@ func checkC13(cx *Ctx, r *Report) {
 		why := ""
 		for _, a := range fx.AtomsAt(st) {
 			switch {
-			case a.Op == "NIL":
-			case a.Op == "LT" && strings.Contains(a.B, "len("):
-			case a.Op == "EMPTY" && strings.Contains(a.A, "SingleLogoutService"):
+			case a.Op == "NIL" && a.Neg:
+			case a.Op == "LT" && !a.Neg && strings.Contains(a.B, "len("):
+			case a.Op == "EMPTY" && a.Neg && strings.Contains(a.A, "SingleLogoutService"):
 			default:
 				condOK = false
 				why = a.String()
@@ -265,6 +282,56 @@ func checkC13(cx *Ctx, r *Report) {
 			}
 			r.Check(first, "R-GUARD", "slo:first-entry", w.InstrPos(st), "assigned from the element of the first iteration of a front-to-back range, then the loop is left", "the element LogoutURL is taken from is not recognisably the first of the list")
 		}
+	}
+	// the status code of the message is one of the protocol's status constants, Success among them (a valid request is
+	// answered with Success, not with a mangled code); its IssueInstant is the formatted current time
+	{
+		ls, sites := vf.FieldStoreSources("samlp.StatusCodeType", "Value")
+		if len(sites) == 0 {
+			r.Fail("R-VFG", "slo:StatusCode.Value", "", "no status code is filled in the logout handler's scope")
+		} else {
+			r.checkSources("R-VFG", "slo:StatusCode.Value", w.InstrPos(sites[0]), vf.Deep(ls), []string{"global:provider.StatusCode*"}, []string{"global:provider.StatusCodeSuccess"}, true)
+		}
+		ls, sites = vf.FieldStoreSources("samlp.LogoutResponseType", "IssueInstant")
+		if len(sites) > 0 {
+			r.checkSources("R-VFG", "slo:LogoutResponseType.IssueInstant", w.InstrPos(sites[0]), vf.Deep(ls), []string{"ext:time.Now#0", "param:*/#0.TimeFormat", "via:(time.Time).*"}, []string{"ext:time.Now#0"}, false)
+		}
+	}
+	// the send function posts exactly when a location is known, and returns the message in the body exactly when none is
+	if sb := w.Func("provider.(*LogoutResponse).sendBackLogoutResponse"); sb != nil {
+		for _, c := range callsIn(sb) {
+			kind := fx.replyAct(c)
+			if kind != "Template.Execute" && kind != "xml.Write" {
+				continue
+			}
+			pts, ok := fx.atomPathsTo(c.Block(), 1024)
+			if !ok || len(pts) == 0 {
+				r.Undecided("R-GUARD", "sendBackLogoutResponse:"+kind, w.InstrPos(c), "paths not enumerable")
+				continue
+			}
+			bad := ""
+			for _, p := range pts {
+				known, unknown := false, false
+				for _, a := range p.Atoms {
+					if a.Op == "EMPTY" && strings.HasSuffix(a.TA, "<provider.LogoutResponse>.LogoutURL") {
+						if a.Neg {
+							known = true
+						} else {
+							unknown = true
+						}
+					}
+				}
+				if kind == "Template.Execute" && !known {
+					bad = "the auto-submit form is rendered on a path that has not found LogoutURL non-empty: a response for a provider without logout location is posted to an empty action"
+				}
+				if kind == "xml.Write" && !unknown {
+					bad = "the message is written into the HTTP body on a path that has not found LogoutURL empty: a provider with a registered logout location does not get the response posted to it"
+				}
+			}
+			r.Check(bad == "", "R-GUARD", "sendBackLogoutResponse:"+kind, w.InstrPos(c), "form exactly when a logout location is known, body exactly when none is", bad)
+		}
+	} else {
+		r.Fail("R-GUARD", "sendBackLogoutResponse", "", "anchor not found")
 	}
 	r.Min("R-VFG", 8)
 }
